@@ -57,7 +57,7 @@ for _l, _cls in (("rust", "2-byte expando U+00B5; the shared pre_process_pattern
       decides=f"for L = {_l} ({_cls}): " + _DEC_LANG, functions=LANG_FUNCS, assumes=[LANG_ASSUME], shape="STR",
       bounds="spelling: symbolic index into a table of 24 spellings, case-split ($A $$A $_ $$_ $$$ $$$A | $$$_ $_X $$_X $$$_X $Z $A_1 | $a $1 $ $$ $$$$ $$$$A | $ZA $$Z0 $Aa $$$a $A$B A). " + _NOTE_LANG + "; unwind 25")
 for _l in ("Bash", "Cpp", "CSharp", "Elixir", "Go", "Haskell", "JavaScript", "Json", "Kotlin", "Lua", "Php", "Python", "Ruby", "Scala", "Swift", "Tsx", "TypeScript", "Yaml"):
-    H(prop="C20", name=f"c20_lang_named_{_l.lower()}", crate="lang-h", module="c20_lang_spelling", features=[], timeout=2400, mem_gb=20, tier="thorough",
+    H(prop="C20", name=f"c20_lang_named_{_l.lower()}", crate="lang-h", module="c20_lang_spelling", features=[], timeout=2400, mem_gb=20,
       decides=f"for L = {_l}: " + _DEC_LANG, functions=LANG_FUNCS, assumes=[LANG_ASSUME], shape="STR",
       bounds="spelling: symbolic index into the six spellings the property names ($A $$A $_ $$_ $$$ $$$A), case-split. " + _NOTE_LANG + "; unwind 25")
 for _nm, _b in (("c20_lang_spelling_rust_len3", "Rust, every spelling of exactly 3 bytes starting with $ over {$,A,Z,a,0,_}"),
@@ -660,9 +660,9 @@ H(prop="C03", name="c03_match_len_terminal", crate="core-h", module="c03_single"
              "ast_grep_core::matcher::pattern::Pattern::match_node_with_env"],
   assumes=[ST_TS], shape="FLAT(1)", bounds="goal token: 5 kinds + ERROR, named bit, 2-byte text; candidate leaf: 5 kinds, 2-byte text; 5 strictness levels; unwind 8")
 for _nm, _pat, _tier in (("c01_prefilter_nested_one_token", "call[ call[T1] ] with a 2-byte text", "quick"),
-                         ("c01_prefilter_nested_two_tokens", "call[ call[T1] T3 ] with texts of lengths 2, 1", "thorough"),
+                         ("c01_prefilter_nested_two_tokens", "call[ call[T1] T3 ] with texts of lengths 2, 1", "lab"),
                          ("c01_prefilter_nested_tokens", "call[ call[T1 T2] T3 ] with texts of lengths 4, 2, 3", "thorough")):
-    H(prop="C01", name=_nm, crate="core-h", module="c01_prefilter", features=["hooks", "n4"], timeout=1800, mem_gb=16, tier=_tier,
+    H(prop="C01", name=_nm, crate="core-h", module="c01_prefilter", features=["hooks", "n4"], timeout=3600, mem_gb=16, tier=_tier,
       recursion={"ast_grep_core::matcher::PatternNode::fixed_string_impl": 3},
       decides="Pattern::fixed_string() of a nested pattern is empty or the text of a token whose text the strictness level compares (any token under cst/smart, named tokens only under ast/relaxed -- unnamed pattern tokens can be skipped at any depth --, nothing under signature); requiring less than the longest such token is accepted",
       functions=["ast_grep_core::matcher::pattern::Pattern::fixed_string", "ast_grep_core::matcher::pattern::PatternNode::fixed_string_impl"],
